@@ -212,6 +212,9 @@ def model_inputs(ex, inputs, model):
             out[p] = model.eval(v.t, model_completion=True).as_long()
         elif f.kind == "bool":
             out[p] = z3.is_true(model.eval(v.t, model_completion=True))
+        elif f.kind == "str":
+            k = model.eval(v.t, model_completion=True).as_long()
+            out[p] = next((lit for lit, i in ex.str_ids.items() if i == k), "tok%d" % k)
         elif f.kind == "real":
             x = model.eval(v.t, model_completion=True)
             try:
